@@ -93,11 +93,18 @@ func buildEngine(root, engine string) string {
 	out := filepath.Join(root, ".build", engine+".test")
 	os.MkdirAll(filepath.Dir(out), 0o755)
 	// The harness module needs /repo's go.sum entries.
-	args := []string{"test", "-c", "-tags", "verif", "-o", out, "./engines/" + engine}
+	tags, extra := "verif", []string{}
+	if js, why := prepareOverlay(root); js != "" {
+		tags, extra = "verif verifruntime", []string{"-overlay", js}
+	} else {
+		fmt.Printf("note: engines built without the runtime overlay (%s)\n", why)
+	}
+	args := append([]string{"test", "-c", "-tags", tags}, extra...)
 	if raceBuild() {
 		out = filepath.Join(root, ".build", engine+".race.test")
-		args = []string{"test", "-c", "-race", "-tags", "verif", "-o", out, "./engines/" + engine}
+		args = append(args, "-race")
 	}
+	args = append(args, "-o", out, "./engines/"+engine)
 	cmd := exec.Command(goTool, args...)
 	cmd.Dir = root
 	cmd.Env = goEnv()
@@ -258,7 +265,7 @@ func main() {
 		}
 		os.Setenv("VERIF_HELPER", helper)
 	}
-	dir, err := os.MkdirTemp(shm(), "verif-check-"+prop+"-")
+	dir, err := simkit.MkdirTemp(shm(), "verif-check-"+prop+"-")
 	if err != nil {
 		trouble("cannot create job directory: %v", err)
 	}
@@ -268,7 +275,7 @@ func main() {
 		exit(doReplay(root, bin, dir, prop, *replay))
 	}
 	if self {
-		exit(doSelfcheck(bin, dir, prop, *tier, uint64(seed), *runs, *scenario))
+		exit(doSelfcheck(bin, dir, prop, *tier, uint64(seed), *runs, *scenario, *exact))
 	}
 
 	b := *budget
@@ -614,17 +621,24 @@ func doReplay(root, bin, dir, prop, file string) int {
 	return 0
 }
 
-func doSelfcheck(bin, dir, prop, tier string, seed uint64, runs int, scenario string) int {
+func doSelfcheck(bin, dir, prop, tier string, seed uint64, runs int, scenario string, exact uint64) int {
 	if runs == 0 {
 		runs = 30
 	}
 	type key struct{ gmp string }
 	all := map[string]map[string]bool{}
 	n := 0
-	for _, gmp := range []string{"1", "4", "16"} {
+	gmps := []string{"1", "4", "16"}
+	if v := os.Getenv("VERIF_SELFCHECK_GMP"); v != "" {
+		// e.g. "1,1,1": the operating point of the checks (workers and replays
+		// run with GOMAXPROCS=1) instead of the stricter comparison across
+		// degrees of parallelism.
+		gmps = strings.Split(v, ",")
+	}
+	for _, gmp := range gmps {
 		os.Setenv("VERIF_GOMAXPROCS", gmp)
 		for rep := 0; rep < 2; rep++ {
-			job := simkit.Job{Property: prop, Tier: tier, Mode: "selfcheck", SeedBase: seed, MaxRuns: runs, Repeat: 1, Worker: 700 + n, Scenario: scenario}
+			job := simkit.Job{Property: prop, Tier: tier, Mode: "selfcheck", SeedBase: seed, MaxRuns: runs, Repeat: 1, Worker: 700 + n, Scenario: scenario, ExactSeed: exact}
 			n++
 			wr := runWorker(bin, job, dir, 30*time.Minute)
 			if wr.out == nil {
@@ -651,7 +665,7 @@ func doSelfcheck(bin, dir, prop, tier string, seed uint64, runs int, scenario st
 			fmt.Printf("DIVERGENT %s: %d distinct journal hashes\n", k, len(hs))
 		}
 	}
-	fmt.Printf("selfcheck %s: %d seeds x 6 executions (GOMAXPROCS 1/4/16 x 2 processes): %d divergent\n", prop, len(all), div)
+	fmt.Printf("selfcheck %s: %d seeds x %d executions (GOMAXPROCS %s x 2 processes): %d divergent\n", prop, len(all), 2*len(gmps), strings.Join(gmps, "/"), div)
 	if div > 0 {
 		return 2
 	}
